@@ -217,6 +217,10 @@ func VerifC06_s2_implicit_header_with_body() {
 			return
 		}
 		verifAssert("create:request-encoded", ownc.EncodeCreateRequest(enc)(req, p) == nil)
+		if nondetBool("standard-bearer-client") {
+			// any HTTP client: RFC 6750 "Authorization: Bearer <token>"
+			req.Header.Set("Authorization", "Bearer "+token)
+		}
 		mux.ServeHTTP(w, wire(req))
 		verifAssert("create:callback-gets-the-token-without-prefix", s.jwtCalls == 1 && s.token == token)
 		verifAssert("create:method-ran-with-body-attribute", s.createRan == 1 && s.createName == name)
